@@ -195,6 +195,8 @@ def gen_lineup(rng: random.Random, n=None, kinds=None, max_bs=4, rl=False, featu
         # the bootstrap sampler must be able to feed every history-driven sampler that may follow; with several Halton
         # samplers in the line-up the scheduler may bootstrap with any of them, so all of them must be large enough
         need = max([s["batch_size"] for s in lineup if s["cls"] == "bestbatch"] + [1])
+        if any(s["cls"] == "gp" for s in lineup):
+            need = max(need, 2)          # a Gaussian process cannot be fitted to a single point (zero noise variance)
         if not any(s["cls"] == "halton" for s in lineup) and rng.random() < 0.5 and need == 1:
             pass      # let the scheduler add its own Halton(batch_size=1)
         else:
@@ -205,6 +207,8 @@ def gen_lineup(rng: random.Random, n=None, kinds=None, max_bs=4, rl=False, featu
                 sp["batch_size"] = max(sp["batch_size"], need)
     else:
         need = max([s["batch_size"] for s in lineup[1:] if s["cls"] == "bestbatch"] + [1])
+        if any(s["cls"] == "gp" for s in lineup[1:]):
+            need = max(need, 2)
         lineup[0]["batch_size"] = max(lineup[0]["batch_size"], need)
     return lineup
 
@@ -592,7 +596,7 @@ class CalSim:
             return None if cs is None else seeds.randrange(2 ** 31)
         samplers = [make_sampler(s, cseed()) for s in cfg["lineup"]]
         m = cfg["model"]
-        self.model = models.HarnessModel(m["kind"], m["D"], m.get("extreme", 0.0), m.get("mutates", False))
+        self.model = models.HarnessModel(m["kind"], m["D"], m.get("extreme", 0.0), m.get("mutates", False), m.get("scale", 1.0))
         real = models.real_data_for(m["kind"], m["D"], cfg["N"], cfg["real_seed"])
         kw = {}
         if cfg["scheduler"]["kind"] == "rl":
